@@ -12,7 +12,7 @@ import (
 // kind in between.  Few measurements and fields, so that drops followed by
 // re-creation with another type (the shape behind DESIGN §6 F16) are frequent.
 func gen(r *h.Rand, tier string, emit func([]string)) {
-	n := 300
+	n := 240
 	if tier == "thorough" {
 		n = 5000
 	}
